@@ -29,14 +29,22 @@ claim("C04", "closed-world `raises` clause of every loader closure under contrac
 claim("C02", "function-against-spec: accept-iff / value / documented-rejection clauses transcribed from "
              "specific-types-behavior.rst, proved for every scalar loader and the composed iterable and dict loaders")
 claim("C05", "trail post-conditions (exact top element, old trail kept, ALL mode sound+complete+exactly-once) proved with loop "
-             "invariants over symbolic sequences for the iterable and dict loaders; leaf loaders carry the offending datum")
+             "invariants over symbolic sequences for the iterable, dict, tuple and union loaders and for every generated model loader "
+             "of the GENPROG family; leaf loaders carry the offending datum",
+      note=NOTE + " C05-specific: the struct_trail helpers (append_trail / extend_trail / render_trail_as_note keep the trail in a deque "
+                  "attribute, which the executor does not model) are used at call sites through contracts that are checked only on a bounded "
+                  "family (props/C05.py, labelled bounded).")
 claim("C06", "each debug-trail variant of a container loader is proved against one mode-independent spec (identical accept-iff / "
              "value formulas), so agreement of the three modes follows from the contracts; error correspondence from the "
              "first-error / agg-complete clauses")
 claim("C07", "strict-origin and accept-iff clauses: strict acceptance implies an allowed strict origin and the lax spec; proved "
              "per loader under contract")
 claim("C20", "implicit frame clause `modifies nothing` on every unit (any store to a non-fresh object is an obligation) and "
-             "freshness of built containers")
+             "freshness of built containers (closure state, memoising decorators, copying coercers, flag dumpers, generated loaders, "
+             "dumpers and converters)",
+      note=NOTE + " C20-specific: dumpers with extra_out and inputs whose own __getitem__ has a side effect (collections.defaultdict, outside "
+                  "D) are exercised by bounded probes in props/C20.py (labelled bounded). Known finding recorded: required keys are inserted "
+                  "into a defaultdict input by `data[key]`.")
 claim("C01", "loader value clauses (result equals the constructor applied to the dumped form) for scalars, enums, flags and literals; "
              "the model round trip as a lemma over the generated loader and dumper contracts instantiated from the same independent "
              "layout (the dumper writes every field to exactly the path the loader reads it from, the loader accepts every tree of that "
@@ -76,10 +84,13 @@ claim("C15", "`_dedup` (the de-duplication used for union members and, typed, fo
 
 claim("C14", "post-conditions of the as-is coercer providers (same type, destination Any, non-generic subclass, union sub-case by TYPE "
              "equality) taken from the property text and proved on every path of the real methods for arbitrary normalised types; "
-             "each raises only CannotProvide otherwise",
+             "each raises only CannotProvide otherwise; Optional coercer: applicability (None plus exactly one other type) and closure (None stays "
+             "None, every other value — 0, [], {} too — goes through the inner coercer); a converter is produced exactly when the documented "
+             "rules give every destination field a source and a coercer (creation / refusal obligations of the GENPROG converter family, "
+             "unlinked-optional policy per field)",
       note=NOTE + " C14-specific: strip_tags / is_generic / is_parametrized / is_subclass_soft are abstracted as deterministic "
-                  "total functions; `==` of normalised types is the relation py_eq; the structural coercers (Optional, iterable, "
-                  "dict), the model coercer and the unlinked-field policy chain are not yet under contract.")
+                  "total functions; `==` of normalised types is the relation py_eq; iterable / dict coercers are under contract only for "
+                  "their copying behaviour; refusal is decided per program of the converter family (bounded over programs).")
 
 GENPROG_NOTE = (" GENPROG: every program of a printed family (logical model x name_mapping configuration x debug trail x coercion; "
                 "dataclass, plain __init__, attrs with aliases, attrs with a hand-written __init__, TypedDict for dumping) is generated by "
@@ -93,7 +104,7 @@ claim("C03", "every generated loader/dumper of the program family is proved agai
              "`...` in maps, nested paths, list indices), two-sided acceptance bounds, unknown keys ignored / rejected / delivered "
              "exactly (loop invariant `extras_prefix`), dumper tree shape, omit_default for as-is dumpers",
       note=NOTE + GENPROG_NOTE + " C03-specific: name_mapping provider chaining/overlay merging and extra_out/saturators are outside the "
-                                 "family; omit_default compares the DUMPED value with the default — recorded known finding "
+                                 "family (chaining of two name_mapping providers IS in the family); omit_default compares the DUMPED value with the default — recorded known finding "
                                  "(known_findings.json), the weaker as-is clause is proved.",
       ref="DESIGN.md §5, Appendix D")
 
